@@ -21,7 +21,7 @@ const pkgDiag = "core/validators/diagnostics"
 // the method receiver, "param:<name>" for a parameter, resolving locals through their
 // single definition / range source (depth-bounded).
 func (w *World) exprRoot(fi *FuncInfo, fd *funcDefs, e ast.Expr, depth int) string {
-	if depth > 8 || e == nil {
+	if depth > bound(8) || e == nil {
 		return "?"
 	}
 	info := fi.Pkg.TypesInfo
